@@ -9,36 +9,59 @@ use serde::{Deserialize, Serialize};
 pub struct MomentData {
     scale: f32,
     offset: f32,
+    data_word_size: u8,
     values: Vec<u8>,
 }
 
 impl MomentData {
     /// Create new moment data from fixed-point encoding.
     pub fn from_fixed_point(scale: f32, offset: f32, values: Vec<u8>) -> Self {
+        Self::from_fixed_point_with_word_size(8, scale, offset, values)
+    }
+
+    /// Create new moment data from fixed-point encoding where each gate occupies `data_word_size`
+    /// bits (8 or 16, the latter stored big-endian) of `values`.
+    pub fn from_fixed_point_with_word_size(
+        data_word_size: u8,
+        scale: f32,
+        offset: f32,
+        values: Vec<u8>,
+    ) -> Self {
         Self {
             scale,
             offset,
+            data_word_size,
             values,
         }
     }
 
     /// Values from this data moment corresponding to gates in the radial.
     pub fn values(&self) -> Vec<MomentValue> {
-        let copied_values = self.values.iter().copied();
-
-        if self.scale == 0.0 {
-            return copied_values
-                .map(|raw_value| MomentValue::Value(raw_value as f32))
+        if self.data_word_size == 16 {
+            return self
+                .values
+                .chunks_exact(2)
+                .map(|raw_value| self.value(u16::from_be_bytes([raw_value[0], raw_value[1]])))
                 .collect();
         }
 
-        copied_values
-            .map(|raw_value| match raw_value {
-                0 => MomentValue::BelowThreshold,
-                1 => MomentValue::RangeFolded,
-                _ => MomentValue::Value((raw_value as f32 - self.offset) / self.scale),
-            })
+        self.values
+            .iter()
+            .map(|raw_value| self.value(*raw_value as u16))
             .collect()
+    }
+
+    /// Converts a single raw gate value from its fixed-point encoding.
+    fn value(&self, raw_value: u16) -> MomentValue {
+        if self.scale == 0.0 {
+            return MomentValue::Value(raw_value as f32);
+        }
+
+        match raw_value {
+            0 => MomentValue::BelowThreshold,
+            1 => MomentValue::RangeFolded,
+            _ => MomentValue::Value((raw_value as f32 - self.offset) / self.scale),
+        }
     }
 }
 
